@@ -30,6 +30,7 @@ EXPLANATION = (
     "string or round-trip equality.")
 EXPLANATION += " Also decided (rules added after the second round of seeded changes): the sort functions' keys are total (no raise for a resolvable unit) and dim_order is a well-formed table containing the '[]' sentinel."
 EXPLANATION += " Also decided (round 5): the compact modifier '#' is looked for in the defaulted spec (`spec or default_format`) of FullFormatter.format_quantity / format_measurement; the `~` formats take each symbol from the canonical unit's own definition (registry._get_symbol == _units[name].symbol), never by re-parsing the name."
+EXPLANATION += " Also decided (round 8): on the CFG of every 'n'-format site of an exponent, no path carries an unmapped Fraction (every Fraction, integral or not, is mapped to int/float first)."
 
 # documented layouts (docs/user/formatting.rst and the docstrings of the format classes)
 LAYOUT = {
